@@ -256,7 +256,13 @@ func (e *c12Env) run(c c12Case) (obs, bad string) {
 				results = append(results, shapeOfLib(s4.Config()).sig())
 			case "ParseURL-variants":
 				// hand-written URLs (mixed-case type, odd labels, failing ones): the caller's *url.URL must come back untouched
-				for i, raw := range []string{"otpauth://TOTP/Iss:acc?secret=JBSWY3DPEHPK3PXP&digits=8", "otpauth://Hotp/I:a?secret=A&algorithm=sha256", "otpauth://tOtP/a%20b:c%2Fd?secret=A&period=60", "otpauth://FOO/I:a?secret=A", "otpauth://totp/nolabel?secret=A", "OTPAUTH://totp/I:a?secret=A", "otpauth://user:pw@TOTP/I:a?secret=A&digits=abc", "otpauth://TOTP:8080/I:a?secret=A#frag"} {
+				for i, raw := range []string{"otpauth://TOTP/Iss:acc?secret=JBSWY3DPEHPK3PXP&digits=8", "otpauth://Hotp/I:a?secret=A&algorithm=sha256", "otpauth://tOtP/a%20b:c%2Fd?secret=A&period=60", "otpauth://FOO/I:a?secret=A", "otpauth://totp/nolabel?secret=A", "OTPAUTH://totp/I:a?secret=A", "otpauth://user:pw@TOTP/I:a?secret=A&digits=abc", "otpauth://TOTP:8080/I:a?secret=A#frag",
+					// query texts in the forms a hand-written or foreign URL has: ';' separators, '+' and %-escapes, repeated,
+					// empty and upper-case keys, a trailing separator, a bare '?'
+					"otpauth://totp/ACME:alice?secret=JBSWY3DPEHPK3PXP;issuer=ACME;digits=8", "otpauth://hotp/ACME:alice?secret=JBSWY3DPEHPK3PXP&counter=5;digits=6",
+					"otpauth://totp/A:b?secret=A&issuer=A+B%20C%2B", "otpauth://totp/A:b?secret=A&secret=B&digits=6&digits=8", "otpauth://totp/A:b?SECRET=A&Digits=8&",
+					"otpauth://totp/A:b?", "otpauth://totp/A:b?secret=&period=&digits=", "otpauth://totp/A:b?secret=A&period=%33%30", "otpauth://totp/A:b?secret=A%3Bdigits=8",
+					"otpauth://totp/A%3Ab?secret=A", "otpauth://totp//A:b?secret=A", "otpauth://totp/A:b/?secret=A", "otpauth://totp/A:b?secret=a b\tc"} {
 					pu, err := url.Parse(raw)
 					if err != nil {
 						continue
